@@ -6,6 +6,12 @@ CHECKS = {
  'C19': dict(cat='proof', tech='contract-based deductive verification: AST->VC (loop invariant with ghost prefix sums, bounds on every subscript, rejection clause) discharged by z3/cvc5; bounded run-time contract check for dtype pairings',
     text='Every obligation generated from the current source of util.cumsum (bounds of each subscript under numba wrap semantics, loop invariant init/step, postcondition out[j]=offset+sum(arr[:j+1-initial]), total, rejection iff wrong length, frame) is discharged for all lengths >= 0 and all four flag settings; dtype pairings/list input are only bounded (lengths 0..5).',
     note='element arithmetic mathematical (no overflow/rounding); numba index semantics as observed; z3/cvc5; encoder cross-checked at run time', ref='6/C19'),
+ 'C04': dict(cat='proof', tech='contract-based deductive verification: bit-vector VCs over all 2^32/2^64 words from the real kernel ASTs (numba integer typing), loop invariants, wrappers by full output-mode enumeration against callee contracts; z3 (bv2int) + bounded compiled-kernel cross-check',
+    text='Kernels _unpack_rvint/_unpack_pids are proved equal to spec functions written from the documented bit ranges for every word, every output selection (4 + 32 None-patterns), all lengths; wrappers unpack_rvint (9 modes), unpack_pids (32 selections), empty_bitpacked_arrays are proved against the kernel contracts; half-quantum lemma in reals. float32 rounding only bounded.',
+    note='floats as reals; numba typing table observed and cross-checked at run time; reshape/view identity on (N,3) arrays; z3 int-blasting', ref='6/C04'),
+ 'C15': dict(cat='proof', tech='contract-based deductive verification: nibble expansion by bit-vectors (all 2^72 records), header/particle state machine by loop invariant with ghost rank/last-header functions and inductive lemmas; z3 + bounded compiled-kernel cross-check',
+    text='_expand_to_short proved for every 9-byte record; _unpack_pack9 proved to write particle rank(r) of every non-header record r with position/velocity from the most recent header, return rank(N), for all streams starting with a valid header, any pos/vel selection; wrapper unpack_pack9 in 9 modes against the kernel contract; quantum lemma.',
+    note='floats as reals (0.0005 = 1/2000); precondition leading header with cpd>=1; int64 counters mathematical; format constants as documented in the module', ref='6/C15'),
 }
 NOT_YET = {}
 props = [json.loads(l) for l in open(os.path.join(HERE, 'properties.jsonl'))]
